@@ -24,6 +24,7 @@ type CExpr struct {
 	ast       ast.Expr
 	Line      int
 	GhostOnly string // clause about this ghost only: skipped for loops that never update it
+	Tagged    bool   // the clause names its properties itself (requires[Cxx] ...)
 	Global    bool   // "requires global E": E is an invariant of package-level state that holds whenever no
 	// writer of that state is running: assumed at entry, not an obligation of the callers
 }
@@ -441,7 +442,7 @@ func parseContractFile(path string, extra ...string) (*ContractFile, error) {
 			if err != nil {
 				return nil, fmt.Errorf("line %d: %v in %q", ln, err, m[3])
 			}
-			ce := &CExpr{Text: m[3], Props: props, ast: e, Line: ln, Global: isGlobal}
+			ce := &CExpr{Text: m[3], Props: props, ast: e, Line: ln, Global: isGlobal, Tagged: m[2] != ""}
 			switch m[1] {
 			case "requires":
 				cur.Requires = append(cur.Requires, ce)
@@ -773,6 +774,24 @@ func (fx *FnExec) evalContract(e *CExpr, env *evalEnv) (string, error) {
 	}
 	if v.Sort != "Bool" {
 		return "", fmt.Errorf("contract expression %q is not boolean (sort %s)", e.Text, v.Sort)
+	}
+	return v.S, nil
+}
+
+// evalMeasure evaluates a decreases clause: an integer expression.
+func (fx *FnExec) evalMeasure(e *CExpr, env *evalEnv) (string, error) {
+	if env.gh == nil {
+		env.gh = fx.cur.gh
+	}
+	if env.oldGh == nil {
+		env.oldGh = fx.entryGh
+	}
+	v, err := fx.evalC(e.ast, env)
+	if err != nil {
+		return "", err
+	}
+	if v.Sort != "Int" {
+		return "", fmt.Errorf("measure %q is not an integer (sort %s)", e.Text, v.Sort)
 	}
 	return v.S, nil
 }
